@@ -127,6 +127,28 @@ fn check_case<'a>(b: &'a AllBuilder<'a>, c: &Case, evals: &mut u64) -> Option<(S
     let mut w: Vec<W2> = Vec::new();
     let mut code = c.wcode;
     for v in 0..n {
+        if c.wcode >= 1000 {
+            // tie-prone schemes: many equal values, so that branch bounds tie exactly
+            let isq = c.q.contains(&v);
+            w.push(match c.wcode - 1000 {
+                0 => (0.5, 0.5),
+                1 => {
+                    if isq {
+                        (1.0, 1.0)
+                    } else {
+                        (0.5, 0.5)
+                    }
+                }
+                _ => {
+                    if isq {
+                        (0.5, 1.0)
+                    } else {
+                        (0.25, 0.75)
+                    }
+                }
+            });
+            continue;
+        }
         let k = code % 4;
         code /= 4;
         w.push(if c.q.contains(&v) { QW[k] } else { PW[k] });
@@ -185,6 +207,18 @@ fn check_case<'a>(b: &'a AllBuilder<'a>, c: &Case, evals: &mut u64) -> Option<(S
         code /= 4;
         if c.q.contains(&v) {
             we.push(((1.0, 0.0), (1.0, 0.0)));
+        } else if c.wcode >= 1000 {
+            let allowed = match last_decision_level {
+                None => true,
+                Some(l) => levels[v] > l,
+            };
+            let (pt, u) = match c.wcode - 1000 {
+                0 => (0.5, 4.0),
+                1 => (0.5, if levels[v] == n - 1 { 4.0 } else { 0.0 }),
+                _ => (if levels[v] % 2 == 0 { 0.75 } else { 0.25 }, if levels[v] % 2 == 1 { 2.0 } else { 0.0 }),
+            };
+            let u = if allowed { u } else { 0.0 };
+            we.push(((1.0 - pt, 0.0), (pt, pt * u)));
         } else {
             let (pt, u) = UW[k];
             let allowed = match last_decision_level {
@@ -297,6 +331,46 @@ pub fn run(ctx: &Ctx) -> Report {
     items.reverse();
     let r = par_run(ctx, &items, |_, (n, o, fs, ws)| run_order(*n, o, ctx, *fs, *ws));
     rep.merge(r);
+    // tie regime: every function of 4 variables under the identity order (any other order is the
+    // same instance up to renaming the variables of the function) and one non-identity order,
+    // every ordered query list of <= 3 (quick) / <= 4 (thorough) variables, three weight schemes
+    // built from few distinct values so that branch bounds tie exactly
+    let chunks: Vec<(u64, Vec<usize>)> = (0..64u64).flat_map(|c| vec![(c, vec![0usize, 1, 2, 3]), (c, vec![2usize, 0, 3, 1])]).collect();
+    let maxq = ctx.tier.pick(3, 4);
+    let ties = par_run(ctx, &chunks, |_, (c, order)| {
+        let mut rep = Report::default();
+        rep.exhaustive = true;
+        let n = 4;
+        let b = small_builder(order, 2);
+        let qs: Vec<Vec<usize>> = query_lists(n).into_iter().filter(|q| q.len() <= maxq).collect();
+        let identity = order.iter().enumerate().all(|(i, &v)| i == v);
+        let mut f = c * 1024;
+        while f < (c + 1) * 1024 {
+            if identity || f % 8 == 3 {
+                for q in qs.iter() {
+                    for scheme in 0..3usize {
+                        let case = Case { n, order: order.clone(), f, q: q.clone(), wcode: 1000 + scheme };
+                        let mut ev = 0;
+                        rep.transitions += 1;
+                        if let Some((alg, what)) = check_case(&b, &case, &mut ev) {
+                            rep.violation(format!("optimum:{}", alg), format!("{} on f={:#x} order {:?} query {:?} tie scheme {}: {}", alg, f, order, q, scheme, what), case_json(&case, &alg));
+                        }
+                        rep.evaluations += ev;
+                    }
+                }
+                rep.states += 1;
+            }
+            if rep.n_violations > 8 || (f % 256 == 0 && ctx.over_time()) {
+                break;
+            }
+            f += 1;
+        }
+        rep.traces = rep.transitions;
+        rep
+    });
+    rep.add_extra("tie_regime_instances", ties.transitions);
+    rep.bound("tie_regime", json!({"variables": 4, "functions": "all 65 536 (identity order) + every 8th (order [2,0,3,1])", "query_lists": format!("all ordered lists of <= {} distinct variables", maxq), "weight_schemes": 3}));
+    rep.merge(ties);
     rep.distinct_nontrivial = rep.transitions;
     rep.bound("functions", json!(match ctx.tier { Tier::Quick => "all of F(1..3); every 5th weighting (rotating with the function) for n = 3", Tier::Thorough => "all of F(1..3) with all 64 weightings; every 7th function of F(4) with every 37th weighting" }));
     rep.sample(json!({"function": "0xe8", "order": [1, 0, 2], "query": [2, 0], "weights": {"x0": [0.0, 1.0], "x1": [0.5, 0.5], "x2": [1.0, 0.5]}}));
